@@ -269,7 +269,7 @@ func (p *Prog) Field(structName, field string) *types.Var {
 			return st.Field(i)
 		}
 	}
-	return nil
+	return p.renamedField(structName, st, field)
 }
 
 func (p *Prog) Const(name string) *types.Const {
